@@ -123,6 +123,27 @@ func (m *Machine) Pending() bool {
 	return false
 }
 
+// Quiescent reports that nothing more can happen to a CPU that stays parked:
+// no boundary event ahead, no NMI waiting, and the slot is either empty with
+// an empty queue or holds a maskable request that IFF1 refuses.
+func (m *Machine) Quiescent() bool {
+	for i, e := range m.evs {
+		if !m.raised[i] && e.AtTick == 0 && !e.OnRet && e.Boundary >= m.Steps {
+			return false
+		}
+	}
+	for _, q := range m.queue {
+		if q.Type == z80.NMIType {
+			return false
+		}
+	}
+	q := m.CPU.Interrupt
+	if q == nil {
+		return len(m.queue) == 0
+	}
+	return q.Type != z80.NMIType && !m.CPU.IFF1
+}
+
 // StepInfo describes one completed Step as the environment saw it.
 type StepInfo struct {
 	Before   z80.States
